@@ -625,4 +625,119 @@ theorem bump_within_ceiling_of_le (b f inc mb mf av : K) :
     · linarith
     · exact h
 
+/-! ## the third round's potential increase and the whole final adjustment -/
+
+/-- the rule of thumb, in closed form -/
+theorem increase1_eq (u c a b : K) (hu : 0 < u) :
+    increase1 u c a b = max 0 (u * ((b - a) / 2) - c) / u := by
+  have h2 : (2.0 : K) = 2 := by norm_num
+  have hc : (1 / u * u : K) = 1 := by field_simp
+  unfold increase1
+  simp only [h2, hc, div_one, one_mul, mul_one]
+  split_ifs with h
+  · rw [max_eq_left h.le]; ring
+  · rw [max_eq_right (not_lt.mp h)]; ring
+
+theorem increase1_nonneg (u c a b : K) (hu : 0 < u) : 0 ≤ increase1 u c a b := by
+  rw [increase1_eq u c a b hu]
+  exact div_nonneg (le_max_left _ _) hu.le
+
+theorem increase1_le_half_extra (u c a b : K) (hu : 0 < u) (hc : 0 ≤ c) :
+    increase1 u c a b ≤ max 0 ((b - a) / 2) := by
+  rw [increase1_eq u c a b hu, div_le_iff₀ hu]
+  refine max_le (mul_nonneg (le_max_left _ _) hu.le) ?_
+  have : (b - a) / 2 ≤ max 0 ((b - a) / 2) := le_max_right _ _
+  nlinarith
+
+theorem increase1_zero_iff (u c a b : K) (hu : 0 < u) :
+    increase1 u c a b = 0 ↔ (b - a) / 2 * u ≤ c := by
+  rw [increase1_eq u c a b hu, div_eq_zero_iff]
+  constructor
+  · rintro (h | h)
+    · have := le_max_right 0 (u * ((b - a) / 2) - c)
+      rw [h] at this
+      linarith
+    · exact absurd h hu.ne'
+  · intro h
+    left
+    exact max_eq_left (by linarith)
+
+theorem increase_length (u c : K) (m1 m3 : List K) :
+    (thirdRoundIncrease u c m1 m3).length = min m1.length m3.length := by
+  unfold thirdRoundIncrease; exact List.length_zipWith
+
+theorem increase_getD (u c : K) (m1 m3 : List K) (k : Nat)
+    (hk : k < (thirdRoundIncrease u c m1 m3).length) :
+    (thirdRoundIncrease u c m1 m3).getD k 0 = increase1 u c (m1.getD k 0) (m3.getD k 0) := by
+  have hk' := hk
+  rw [increase_length] at hk'
+  have h1 : k < m1.length := lt_of_lt_of_le hk' (min_le_left _ _)
+  have h3 : k < m3.length := lt_of_lt_of_le hk' (min_le_right _ _)
+  rw [List.getD_eq_getElem _ _ hk, List.getD_eq_getElem _ _ h1, List.getD_eq_getElem _ _ h3]
+  exact List.getElem_zipWith
+
+theorem increase_nonneg (u c : K) (m1 m3 : List K) (hu : 0 < u) :
+    ∀ e ∈ thirdRoundIncrease u c m1 m3, 0 ≤ e := by
+  intro e he
+  obtain ⟨k, hk, rfl⟩ := List.mem_iff_getElem.mp he
+  have := increase_getD u c m1 m3 k hk
+  rw [List.getD_eq_getElem _ _ hk] at this
+  rw [this]
+  exact increase1_nonneg u c _ _ hu
+
+theorem increase_le_half_extra (u c : K) (m1 m3 : List K) (hu : 0 < u) (hc : 0 ≤ c) (k : Nat) :
+    (thirdRoundIncrease u c m1 m3).getD k 0 ≤ max 0 ((m3.getD k 0 - m1.getD k 0) / 2) := by
+  by_cases hk : k < (thirdRoundIncrease u c m1 m3).length
+  · rw [increase_getD u c m1 m3 k hk]
+    exact increase1_le_half_extra u c _ _ hu hc
+  · rw [List.getD_eq_default _ _ (not_lt.mp hk)]
+    exact le_max_left _ _
+
+theorem increase_zero_iff (u c : K) (m1 m3 : List K) (hu : 0 < u) (k : Nat)
+    (hk : k < (thirdRoundIncrease u c m1 m3).length) :
+    (thirdRoundIncrease u c m1 m3).getD k 0 = 0 ↔ (m3.getD k 0 - m1.getD k 0) / 2 * u ≤ c := by
+  rw [increase_getD u c m1 m3 k hk]
+  exact increase1_zero_iff u c _ _ hu
+
+/-- entry `k` of the month-by-month application is `bump1` of the six entries `k` -/
+theorem bumpAll_getD (b f inc mb mf av : List K) (k : Nat)
+    (hk : k < (bumpAll b f inc mb mf av).length) :
+    (bumpAll b f inc mb mf av).getD k (0, 0) =
+      bump1 (b.getD k 0) (f.getD k 0) (inc.getD k 0) (mb.getD k 0) (mf.getD k 0) (av.getD k 0) := by
+  induction k generalizing b f inc mb mf av with
+  | zero =>
+    match b, f, inc, mb, mf, av, hk with
+    | b :: bs, f :: fs, i :: is, m :: ms, n :: ns, a :: as, _ => rfl
+  | succ k ih =>
+    match b, f, inc, mb, mf, av, hk with
+    | b :: bs, f :: fs, i :: is, m :: ms, n :: ns, a :: as, hk =>
+      simp only [bumpAll, List.getD_cons_succ]
+      exact ih bs fs is ms ns as (by simpa [bumpAll] using hk)
+
+/-- the whole final adjustment (rule of thumb, then `increase_biofuels_then_feed`): no month's
+    biofuel or feed is lowered; biofuel ends at most at the larger of its input and its demand,
+    feed at most `1e-9` above the larger of its input and its demand -/
+theorem final_charge_never_lowers_and_within_demand (u c : K) (m1 m3 b f mb mf av : List K) (k : Nat)
+    (hk : k < (bumpAll b f (thirdRoundIncrease u c m1 m3) mb mf av).length) :
+    b.getD k 0 ≤ ((bumpAll b f (thirdRoundIncrease u c m1 m3) mb mf av).getD k (0, 0)).1 ∧
+    f.getD k 0 ≤ ((bumpAll b f (thirdRoundIncrease u c m1 m3) mb mf av).getD k (0, 0)).2 ∧
+    ((bumpAll b f (thirdRoundIncrease u c m1 m3) mb mf av).getD k (0, 0)).1
+      ≤ max (b.getD k 0) (mb.getD k 0) ∧
+    ((bumpAll b f (thirdRoundIncrease u c m1 m3) mb mf av).getD k (0, 0)).2
+      ≤ max (f.getD k 0) (mf.getD k 0) + 1e-9 := by
+  rw [bumpAll_getD _ _ _ _ _ _ k hk]
+  obtain ⟨l1, l2⟩ := bump_never_lowers (b.getD k 0) (f.getD k 0)
+    ((thirdRoundIncrease u c m1 m3).getD k 0) (mb.getD k 0) (mf.getD k 0) (av.getD k 0)
+  obtain ⟨c1, c2⟩ := bump_within_ceiling (b.getD k 0) (f.getD k 0)
+    ((thirdRoundIncrease u c m1 m3).getD k 0) (mb.getD k 0) (mf.getD k 0) (av.getD k 0)
+  refine ⟨l1, l2, ?_, ?_⟩
+  · rcases c1 with h | h
+    · rw [h]; exact le_max_left _ _
+    · exact le_trans h (le_max_right _ _)
+  · rcases c2 with h | h
+    · have := le_max_left (f.getD k 0) (mf.getD k 0)
+      linarith
+    · have := le_max_right (f.getD k 0) (mf.getD k 0)
+      linarith
+
 end Allfed.Proofs
